@@ -110,7 +110,7 @@ def parseTables (j : Json) : R Tables := do
   let ser ← (← fldArr j "ser").mapM (fun e => do
     let d ← topJV (← fld e "dict")
     let chunks ← fldStrs e "chunks"
-    return (render d, chunks.map (fun s => s.toUTF8.toList)))
+    return (render d, chunks.map unhex))
   let imp ← (← fldArr j "imp").mapM (fun e => do
     return ((← fldStr e "name", render (toJV (← fld e "json"))), ← optStr (← fld e "val")))
   let exp ← (← fldArr j "exp").mapM (fun e => do
@@ -131,7 +131,11 @@ def mkEnv (t : Tables) : Env String JsonNumber V :=
 /-! ### requests -/
 def parseFault (j : Json) : R (Option Fault) :=
   if j.isNull then pure none else do
-    return some ⟨← fldNat j "idx", unhex (← fldStr j "part")⟩
+    let after ← (← fldArr j "after").mapM (fun e => do
+      match ← arr e with
+      | [c, b] => return (unhex (← c.getStr?), ← b.getBool?)
+      | _ => throw "bad after-write")
+    return some ⟨← fldNat j "idx", unhex (← fldStr j "part"), after, ← fldBool j "cleanup"⟩
 
 def parseParam (j : Json) : R (Param V) := do
   return { name := ← fldStr j "name", persistent := ← fldBool j "persistent", auto := ← fldBool j "auto",
@@ -151,6 +155,7 @@ def parseAct (j : Json) : R (Act V × Option Fault) := do
   | "writeInit" => return (.writeInit, f)
   | "load" => return (.load, f)
   | "factoryReset" => return (.factoryReset, f)
+  | "seterr" => return (.seterr (← fldStr j "name"), f)
   | a => throw s!"bad action {a}"
 
 def jpairs (l : List (String × V)) : Json := jarr (l.map (fun (k, v) => jarr [Json.str k, Json.str v]))
@@ -167,6 +172,7 @@ def evJson (e : Ev String) : Json := jarr (opJson e.op ++ (if e.failed then [Jso
 def stepJson (o : StepOut String JsonNumber V) (fs : FS String) : Json :=
   Json.mkObj [("evs", jarr (o.evs.map evJson)), ("writes", jpairs o.writes), ("raised", Json.bool o.raised),
     ("values", jpairs (o.ms.params.map (fun p => (p.name, p.value)))), ("writeDict", jpairs o.ms.writeDict),
+    ("hooks", jstrs o.ms.hooks),
     ("target", jbytes (fs "T")), ("tmp", jbytes (fs "T.tmp"))]
 
 def runHist (env : Env String JsonNumber V) : MState JsonNumber V → FS String → List (Act V × Option Fault) → List Json
